@@ -175,7 +175,12 @@ Fixpoint run_steps (e : env) (dump_each : bool) (dump_end : bool) (sv : server) 
       end
   end.
 
+(* `irctable`: the model's command table, for the comparison with the table scanned from the source *)
+Definition table_line : string :=
+  "irctable " ++ sjoin "," (sort_strings (map (fun e : string * nat => fst e ++ ":" ++ dec_of_nat (snd e)) cmd_table)).
+
 Definition run_line (f : list string) : string :=
+  if String.eqb (nth 0 f EmptyString) "irctable" then table_line else
   let net := unhex_field (nth 1 f EmptyString) in
   let opts := list_field (nth 2 f EmptyString) in
   let groups := match split_tokens (skipn 3 f) [] with _ :: g => g | [] => [] end in
